@@ -62,11 +62,23 @@ impl ItemDefinitionContextEvaluator {
   /// Evaluates a context from item definition with specified type reference name.
   pub fn eval(&self, type_ref: &str, name: &Name, ctx: &mut FeelContext) -> FeelType {
     if let Some(evaluator) = self.evaluators.get(type_ref) {
-      evaluator(name, ctx, self)
+      // item definition that refers to itself (directly or not) has no finite context
+      if VISITED.with(|visited| visited.borrow().iter().any(|visited_type_ref| visited_type_ref == type_ref)) {
+        return FeelType::Any;
+      }
+      VISITED.with(|visited| visited.borrow_mut().push(type_ref.to_string()));
+      let feel_type = evaluator(name, ctx, self);
+      VISITED.with(|visited| visited.borrow_mut().pop());
+      feel_type
     } else {
       FeelType::Any
     }
   }
+}
+
+thread_local! {
+  /// Names of item definitions whose contexts are currently being evaluated.
+  static VISITED: std::cell::RefCell<Vec<String>> = std::cell::RefCell::new(vec![]);
 }
 
 ///
